@@ -1632,7 +1632,7 @@ impl Variables {
         }
         // Other
         if let Some(time) = self.other {
-            context.update(&u64::from(time).to_be_bytes());
+            context.update(&time.into_octets());
         }
     }
 
